@@ -1,0 +1,102 @@
+//! Verification hooks (cargo feature `verif`, off by default).
+//!
+//! The scheduler and the preprocessor report what they do at fixed points to a
+//! [`Controller`] installed by a test harness on the thread that calls
+//! [`crate::Txtpp::run`]. Without a controller every hook is a no-op.
+//! Nothing in here changes the behaviour of txtpp.
+use std::any::Any;
+use std::cell::RefCell;
+use std::sync::Arc;
+
+/// Opaque guard returned by [`Controller::on_send`], dropped after the result was sent.
+pub type Guard = Box<dyn Any + Send>;
+
+/// Receiver of hook events. All methods default to doing nothing.
+#[allow(unused_variables)]
+pub trait Controller: Send + Sync {
+    /// coordinator: a task was handed to the thread pool (after `add_total`)
+    fn on_spawn(&self, kind: &str, file: &str, first: bool, total: usize) {}
+    /// coordinator: a first-pass request for a file already seen was dropped
+    fn on_dedup(&self, file: &str) {}
+    /// worker: first statement of a task
+    fn on_begin(&self, kind: &str, file: &str, first: bool) {}
+    /// worker: the task body is over, its result is about to be sent
+    fn on_send(
+        &self,
+        kind: &str,
+        file: &str,
+        first: bool,
+        result: &str,
+        deps: &[String],
+    ) -> Option<Guard> {
+        None
+    }
+    /// coordinator: head of the receive loop, before `try_recv`
+    fn on_poll(&self, done: usize, total: usize, dep_stats: (usize, usize, usize)) {}
+    /// coordinator: a result was taken from the channel (after `add_done`)
+    fn on_recv(&self, kind: &str, file: &str, result: &str, done: usize, total: usize) {}
+    /// coordinator: `run_internal` returned
+    fn on_finish(&self, ok: bool) {}
+    /// worker: a `run` directive is about to start its command
+    fn on_run(&self, file: &str, command: &str, work_dir: &str) {}
+    /// worker: a directive is complete and is about to be executed
+    fn on_pp_exec(&self, file: &str, directive: &str, args: &[String]) {}
+    /// worker: one iteration of the line loop is over (`input` is `None` at end of file)
+    fn on_pp_step(&self, file: &str, step: &PpStep) {}
+}
+
+/// What one iteration of the preprocessor's line loop did
+#[derive(Debug, Clone)]
+pub struct PpStep {
+    /// source line number of the last line read
+    pub line: usize,
+    /// the text consumed by this iteration (`None` at end of file)
+    pub input: Option<String>,
+    /// text handed to the output (after formatting / tag injection), if any
+    pub wrote: Option<String>,
+    /// `add_newline_before_next_output` after the step
+    pub add_nl: bool,
+    /// a directive is being accumulated after the step
+    pub in_directive: bool,
+    /// a tail line is pending after the step
+    pub has_tail: bool,
+    /// `first` | `exec` | `collect`
+    pub pp_mode: &'static str,
+    /// the tag store holds a listening or stored tag after the step
+    pub has_tags: bool,
+}
+
+thread_local! {
+    static CURRENT: RefCell<Option<Arc<dyn Controller>>> = RefCell::new(None);
+}
+
+/// Install (or remove) the controller of the calling thread, returning the previous one
+pub fn install(c: Option<Arc<dyn Controller>>) -> Option<Arc<dyn Controller>> {
+    CURRENT.with(|cur| std::mem::replace(&mut *cur.borrow_mut(), c))
+}
+
+/// The controller of the calling thread
+pub fn current() -> Option<Arc<dyn Controller>> {
+    CURRENT.with(|cur| cur.borrow().clone())
+}
+
+/// Scoped installation, used by worker closures so that hooks deeper in the
+/// call tree find the controller of the run they belong to
+pub struct Scope(Option<Arc<dyn Controller>>);
+
+/// Install `c` on the calling thread until the returned value is dropped
+pub fn enter(c: Option<Arc<dyn Controller>>) -> Scope {
+    Scope(install(c))
+}
+
+impl Drop for Scope {
+    fn drop(&mut self) {
+        install(self.0.take());
+    }
+}
+
+/// Internals re-exported for in-process conformance drivers
+pub mod internals {
+    pub use crate::core::{DepManager, Directive, DirectiveType, ReplaceLineEnding, TagState};
+    pub use crate::fs::{AbsPath, GetLineEnding, TxtppPath};
+}
